@@ -339,8 +339,12 @@ def _check(ctx, case, nc):
             if not check_output(ctx, case, words, reserved_lower, ln, got, salt, "SensitiveWordAnonymizer"):
                 return
     else:
+        fkw = {}
+        if salt and case["wseed"] % 4 == 0:
+            fkw["undo_ip_anon"] = True  # undoing addresses in the same run says nothing about words
+            ctx.count("runs_in_undo_mode")
         fa = nc.af.FileAnonymizer(anon_pwd=(mode == "file+pwd"), anon_ip=False, salt=salt,
-                                  sensitive_words=list(words), reserved_words=list(user_res) if user_res else None)
+                                  sensitive_words=list(words), reserved_words=list(user_res) if user_res else None, **fkw)
         out = io.StringIO()
         fa.anonymize_io(io.StringIO(text + "".join(p + "\n" for p in pwd_lines)), out)
         got_lines = out.getvalue().split("\n")
